@@ -45,6 +45,8 @@ def rand_times(rng, n):
             out.append((a + (b - a) // 2 // 1000 * 1000, b + 1000000))      # a cue that starts before the previous one has ended
         elif rng.random() < 0.1 and len(out) < n and isinstance(a, int):
             out.append((a, b + rng.choice([1000, 500000, 2500000])))         # same start, later end: two cues, not one run
+            if rng.random() < 0.5 and len(out) < n:
+                out.append((a, b))      # the first timespan again, after a different one: not consecutive, so not the same run
         r = rng.random()
         t = (int(b) + 1 if isinstance(b, float) else b) + (0 if r < 0.4 else rng.choice([1, 999, 1000, 1001, 250000, 61000000]))
     return out
